@@ -7,7 +7,7 @@
    Values are compared with relative tolerance 1e-9 (absolute floor 1e-12). *)
 From Coq Require Import String.
 From Coq Require Import QArith ZArith List Bool.
-From OG Require Import C18.Model.
+From OG Require Import C18.Model C18.Model2.
 Import ListNotations.
 Open Scope Q_scope.
 
@@ -22,6 +22,18 @@ Definition oapprox (a b : option Q) : bool :=
   | _, _ => false
   end.
 
+(* model value vs engine value; sqr: the engine's value is the non-negative square root of the model's (stddev) *)
+Definition xapprox (sqr : bool) (m e : option xval) : bool :=
+  match m, e with
+  | Some (XFin x), Some (XFin y) =>
+      if sqr then Qle_bool 0 y && approx (Qred x) (Qred (y * y)) else approx (Qred x) (Qred y)
+  | Some XPosInf, Some XPosInf => true
+  | Some XNegInf, Some XNegInf => true
+  | None, None => true
+  | _, _ => false
+  end.
+Definition xfin (o : option Q) : option xval := option_map XFin o.
+
 Fixpoint cut_by (lens : list nat) (l : list sample) : list (list sample) :=
   match lens with
   | [] => match l with [] => [] | _ => [l] end
@@ -29,11 +41,17 @@ Fixpoint cut_by (lens : list nat) (l : list sample) : list (list sample) :=
   end.
 
 Inductive fnid := FRate | FIncrease | FDelta | FIrate | FIdelta | FSum | FCount | FAvg | FMin | FMax | FLast
-                | FChanges | FResets | FSelect.
+                | FChanges | FResets | FSelect
+                | FStdvar | FStddev | FPresent | FQuantile | FDeriv | FPredict.
 
-Definition spec_fn (f : fnid) (t range offset : Z) (samples : list sample) : option Q :=
+Definition is_sqrt_fn (f : fnid) : bool := match f with FStddev => true | _ => false end.
+
+(* param: the scalar argument of quantile_over_time / predict_linear (unused otherwise) *)
+Definition spec_fn (f : fnid) (param : Q) (t range offset : Z) (samples : list sample) : option xval :=
   let w := window t range offset samples in
   match f with
+  | FQuantile => spec_quantile_over_time param w
+  | _ => xfin match f with
   | FRate => spec_rate t range offset w
   | FIncrease => spec_increase t range offset w
   | FDelta => spec_delta t range offset w
@@ -48,11 +66,18 @@ Definition spec_fn (f : fnid) (t range offset : Z) (samples : list sample) : opt
   | FChanges => spec_changes w
   | FResets => spec_resets w
   | FSelect => option_map snd (instant_select t offset samples)
-  end.
+  | FStdvar | FStddev => spec_stdvar_over_time w
+  | FPresent => spec_present_over_time w
+  | FDeriv => spec_deriv w
+  | FPredict => spec_predict_linear t param w
+  | FQuantile => None
+  end end.
 
-Definition impl_fn (current : bool) (f : fnid) (t range offset : Z) (samples : list sample) (lens : list nat) : option Q :=
+Definition impl_fn (current : bool) (f : fnid) (param : Q) (t range offset : Z) (samples : list sample) (lens : list nat) : option xval :=
   let cut := cut_by lens (window t range offset samples) in
   match f with
+  | FQuantile => impl_quantile_split param cut
+  | _ => xfin match f with
   | FRate => if current then impl_rate_current t range offset cut else impl_rate_repaired t range offset cut
   | FIncrease => impl_increase t range offset cut
   | FDelta => impl_delta t range offset cut
@@ -67,7 +92,12 @@ Definition impl_fn (current : bool) (f : fnid) (t range offset : Z) (samples : l
   | FChanges => impl_changes cut
   | FResets => impl_resets cut
   | FSelect => option_map snd (instant_select t offset samples)
-  end.
+  | FStdvar | FStddev => impl_stdvar_split cut
+  | FPresent => impl_present_split cut
+  | FDeriv => impl_deriv t offset cut
+  | FPredict => impl_predict_linear param t offset cut
+  | FQuantile => None
+  end end.
 
 (* threshold tie of extrapolatedRate: |duration - threshold| within 1e-9 relative *)
 Definition near (a b : Q) : bool := approx (Qred a) (Qred b).
@@ -100,14 +130,15 @@ Definition fn_tie (f : fnid) (t range offset : Z) (samples : list sample) : bool
   | _ => false
   end.
 
-Definition rcase := (fnid * Z * Z * Z * list sample * list nat * option Q * option Q)%type.
+Definition rcase := (fnid * Q * Z * Z * Z * list sample * list nat * option xval * option xval)%type.
 
 Definition check_rcase (c : rcase) : N :=
-  let '(f, t, range, offset, samples, lens, up, sv) := c in
-  let s := spec_fn f t range offset samples in
-  let ir := impl_fn false f t range offset samples lens in
-  let ic := impl_fn true f t range offset samples lens in
-  ((if oapprox s up then 0 else 1) + (if oapprox ir sv then 0 else 2) + (if oapprox ic sv then 0 else 4)
+  let '(f, param, t, range, offset, samples, lens, up, sv) := c in
+  let s := spec_fn f param t range offset samples in
+  let ir := impl_fn false f param t range offset samples lens in
+  let ic := impl_fn true f param t range offset samples lens in
+  let sq := is_sqrt_fn f in
+  ((if xapprox sq s up then 0 else 1) + (if xapprox sq ir sv then 0 else 2) + (if xapprox sq ic sv then 0 else 4)
    + (if fn_tie f t range offset samples then 8 else 0))%N.
 
 Fixpoint mism_from {A} (chk : A -> N) (k : nat) (cs : list A) : list (nat * N) :=
@@ -136,3 +167,22 @@ Definition check_acase (c : acase) : N :=
   ((if vec_agree m up then 0 else 1) + (if vec_agree m sv then 0 else 2))%N.
 
 Definition amismatches := mism_from check_acase 0.
+
+(* absent_over_time cases: the samples of every selected series, a generated cut per series, and whether the engines
+   returned the (single) element *)
+Definition bcase := (Z * Z * Z * list (list sample) * list (list nat) * bool * bool)%type.
+
+Fixpoint zip_cuts (ws : list (list sample)) (lens : list (list nat)) : list (list (list sample)) :=
+  match ws with
+  | [] => []
+  | w :: r => cut_by (hd [] lens) w :: zip_cuts r (tl lens)
+  end.
+
+Definition check_bcase (c : bcase) : N :=
+  let '(t, range, offset, sers, lens, up, sv) := c in
+  let ws := map (window t range offset) sers in
+  let s := negb (is_none (spec_absent_over_time ws)) in
+  let i := negb (is_none (impl_absent_over_time (zip_cuts ws lens))) in
+  ((if Bool.eqb s up then 0 else 1) + (if Bool.eqb i sv then 0 else 2))%N.
+
+Definition bmismatches := mism_from check_bcase 0.
